@@ -464,6 +464,12 @@ var arrMetaRequired = []string{
 	"fn:index.Split",
 	"fn:root-promote:3->2", "fn:root-promote:2->1",
 	"fn:root-split:1->2", "fn:root-split:2->3",
+	// T = 260: 12 + 14*27 == maxThreshold (390): an index slab of exactly maxThreshold bytes is NOT full (`size > maxThreshold`)
+	"fn:IsFull@boundary=false",
+	// data slabs (T = 256): a sibling whose size minus the underflow is EXACTLY minThreshold and whose outermost
+	// element has exactly the missing size must lend (ArrayDataSlab.CanLendToLeft/Right: `size-need < minThreshold`)
+	"data:right.CanLendToLeft@boundary -> child.BorrowFromRight(right)",
+	"data:left.CanLendToRight@boundary -> left.LendToRight(child)",
 }
 
 type arrScenario struct {
@@ -523,9 +529,20 @@ func arrMetaStream(cfg *Config) *hx.Stats {
 				break
 			}
 		}
-		for where := 0; where < 3 && len(st.Violations) <= 20 && st.HarnessErr == ""; where++ {
-			e := &arrEnv{w: w, st: st, cfg: cfg, rng: rng, T: []uint32{256, 276, 304}[where], prog: p}
+		for k := 0; k < 4 && len(st.Violations) <= 20 && st.HarnessErr == ""; k++ {
+			where := k
+			if k == 3 {
+				where = rng.Intn(3)
+			}
+			e := &arrEnv{w: w, st: st, cfg: cfg, rng: rng, T: []uint32{256, 276, 304, 260}[k], prog: p}
 			runArrMetaSweep(e, where)
+			st.Programs++
+			st.Ops += e.step
+			p++
+		}
+		for side := 0; side < 2 && len(st.Violations) <= 20 && st.HarnessErr == ""; side++ {
+			e := &arrEnv{w: w, st: st, cfg: cfg, rng: rng, T: 256, prog: p}
+			runArrDataBoundary(e, side)
 			st.Programs++
 			st.Ops += e.step
 			p++
@@ -571,6 +588,7 @@ func (e *arrEnv) elemSize(tiny bool) uint32 {
 // the root, each with at least minKids children.  Index-level splits (root and non-root) are tagged as they happen.
 func (e *arrEnv) buildThreeLevels(wantMetas, minKids int, tiny bool) ([]aMeta, bool) {
 	mode := e.rng.Intn(3) // append, insert at the front, insert at random positions
+	_, _, maxT, _, _, _ := atree.VerifThresholds()
 	prevDepth, prevL1 := 1, 0
 	for i := 0; i < 40000; i++ {
 		var pos uint64
@@ -607,6 +625,12 @@ func (e *arrEnv) buildThreeLevels(wantMetas, minKids int, tiny bool) ([]aMeta, b
 			e.w.L("TAG index.Split")
 		}
 		prevDepth, prevL1 = depth, len(l1)
+		for _, m := range l1 {
+			if m.size == maxT {
+				// an index slab below the root of exactly maxThreshold bytes: it was not split
+				e.st.Hit("fn:IsFull@boundary=false")
+			}
+		}
 		if depth > 3 {
 			break
 		}
@@ -778,6 +802,166 @@ func runArrMetaSweep(e *arrEnv, where int) {
 		}
 		if n%60 == 59 {
 			e.dPhase()
+		}
+	}
+	e.dPhase()
+}
+
+// ---------------------------------------------------------------------------------------------
+// data-slab lending boundary (sweep survivors #16 / #20 of audit a1)
+
+var dataElemRe = regexp.MustCompile(`(?:\[|,)(\d+):`)
+
+// dataSizes returns the element sizes of a data slab from its dump D(id,next,size,count,inl)[size:desc,...].
+func (e *arrEnv) dataSizes(id string) []uint32 {
+	d := e.slabDump(id)
+	if !strings.HasPrefix(d, "D(") {
+		return nil
+	}
+	var out []uint32
+	for _, m := range dataElemRe.FindAllStringSubmatch(d[strings.Index(d, "["):], -1) {
+		n, _ := strconv.ParseUint(m[1], 10, 32)
+		out = append(out, uint32(n))
+	}
+	return out
+}
+
+func (e *arrEnv) dExact(size uint32) hx.TV {
+	e.nextPay++
+	return hx.TV{Size: size, Pay: e.nextPay % 250}
+}
+
+func (e *arrEnv) dSet(i uint64, v hx.TV) bool {
+	e.step++
+	e.w.L("OP set h=0 i=%d v=%d:%d", i, v.Size, v.Pay)
+	old, err := e.arr.Set(i, v)
+	if err != nil {
+		e.obsErr(err)
+		e.violation("C01", fmt.Sprintf("in-range set at %d of %d failed: %v", i, len(e.shadow), err))
+		e.emitEffects()
+		return false
+	}
+	e.w.L("OBS ok:%s", renderStorable(old))
+	e.checkReturned("C01", old, e.shadow[i])
+	e.shadow[i] = v
+	e.emitEffects()
+	e.dispose(old)
+	return true
+}
+
+// runArrDataBoundary: two slab levels at T = 256.  side 0: the FIRST data slab is made to underflow by u bytes while
+// its right sibling has exactly minThreshold + u bytes and a first element of exactly u bytes; side 1: the LAST data
+// slab underflows by u while its left sibling has minThreshold + u bytes and a last element of u bytes.  The sibling
+// can lend exactly on the boundary of `size - need < minThreshold`: the rule says borrow / lend, not merge.
+func runArrDataBoundary(e *arrEnv, side int) {
+	const u = 10
+	minT := e.T / 2
+	if !e.dOpen() {
+		return
+	}
+	fail := func(what string) {
+		if e.st.HarnessErr == "" && len(e.st.Violations) == 0 {
+			e.st.HarnessErr = fmt.Sprintf("arrmeta data-boundary program (side %d): %s", side, what)
+		}
+	}
+	var root aMeta
+	for i := 0; i < 60; i++ {
+		if !e.dIns(uint64(len(e.shadow)), e.dExact(100)) {
+			return
+		}
+		var ok bool
+		if root, ok = parseArrMeta(atree.VerifDumpSlab(atree.VerifArrayRoot(e.arr), hx.Describe)); ok && len(root.kids) >= 3 {
+			break
+		}
+	}
+	if len(root.kids) < 3 {
+		fail("could not build three data slabs")
+		return
+	}
+	n := len(root.kids)
+	ai, si := 0, 1 // the slab that will underflow, the sibling that will lend
+	if side == 1 {
+		ai, si = n-1, n-2
+	}
+	start := func(k int) uint64 {
+		var s uint64
+		for j := 0; j < k; j++ {
+			s += uint64(root.kids[j].count)
+		}
+		return s
+	}
+	sum := func(xs []uint32) (t uint32) {
+		for _, x := range xs {
+			t += x
+		}
+		return t
+	}
+	A, S := e.dataSizes(root.kids[ai].id), e.dataSizes(root.kids[si].id)
+	if len(A) < 2 || len(S) < 2 {
+		fail("data slabs with fewer than two elements")
+		return
+	}
+	prefix := int(root.kids[si].size - sum(S)) // arrayDataSlabPrefixSize, read off the real slab
+	// sibling: [u, x, rest...] (side 0) resp. [rest..., x, u] (side 1) with prefix + sum == minThreshold + u
+	outer, inner := 0, 1
+	if side == 1 {
+		outer, inner = len(S)-1, len(S)-2
+	}
+	x := int(minT) - prefix - int(sum(S)-S[outer]-S[inner])
+	if x < 2 || x > int(e.maxInl) {
+		fail(fmt.Sprintf("sibling cannot be tuned (inner element would need %d bytes)", x))
+		return
+	}
+	if !e.dSet(start(si)+uint64(inner), e.dExact(uint32(x))) || !e.dSet(start(si)+uint64(outer), e.dExact(u)) {
+		return
+	}
+	// underflowing slab: after the removal of its outer element prefix + sum == minThreshold - u
+	aOuter, aInner := 0, 1
+	if side == 1 {
+		aOuter, aInner = len(A)-1, 0
+	}
+	y := int(minT) - u - prefix - int(sum(A)-A[aOuter]-A[aInner])
+	if y < 2 || y > int(e.maxInl) {
+		fail(fmt.Sprintf("underflowing slab cannot be tuned (element would need %d bytes)", y))
+		return
+	}
+	if !e.dSet(start(ai)+uint64(aInner), e.dExact(uint32(y))) {
+		return
+	}
+	before, _ := parseArrMeta(atree.VerifDumpSlab(atree.VerifArrayRoot(e.arr), hx.Describe))
+	S2 := e.dataSizes(before.kids[si].id)
+	if len(before.kids) != n || before.kids[si].size != minT+u || before.kids[ai].size-A[aOuter] != minT-u || S2[outer] != u {
+		fail("tuned slabs do not have the intended sizes")
+		return
+	}
+	e.dPhase()
+	if !e.dRem(start(ai) + uint64(aOuter)) {
+		return
+	}
+	after, _ := parseArrMeta(atree.VerifDumpSlab(atree.VerifArrayRoot(e.arr), hx.Describe))
+	fn := "unexplained"
+	switch {
+	case len(after.kids) == n-1 && side == 0:
+		fn = "child.Merge(right)"
+	case len(after.kids) == n-1:
+		fn = "left.Merge(child)"
+	case len(after.kids) == n && after.kids[si].size < before.kids[si].size && side == 0:
+		fn = "child.BorrowFromRight(right)"
+	case len(after.kids) == n && after.kids[si].size < before.kids[si].size:
+		fn = "left.LendToRight(child)"
+	}
+	tag := []string{"data:right.CanLendToLeft@boundary", "data:left.CanLendToRight@boundary"}[side] + " -> " + fn
+	e.w.L("TAG %s", tag)
+	e.st.Hit(tag)
+	e.dPhase()
+	// shrink to nothing: the rest of the program is a plain drain from the chosen end
+	for len(e.shadow) > 0 {
+		pos := uint64(0)
+		if side == 1 {
+			pos = uint64(len(e.shadow) - 1)
+		}
+		if !e.dRem(pos) {
+			return
 		}
 	}
 	e.dPhase()
